@@ -83,6 +83,9 @@ func init() {
 				} else {
 					c["route"] = "api"
 					c["ev"] = []gen.M{gen.Op("solve")}
+					if r.Intn(2) == 0 { // the same constraint values handed to New a second time
+						c["ev"] = []gen.M{gen.Op("solve"), gen.Op("solve")}
+					}
 				}
 				res = append(res, c)
 			}
